@@ -1261,6 +1261,18 @@ hwloc__groups_by_distances(struct hwloc_topology *topology,
           if (!hwloc_bitmap_iszero(group_obj->complete_cpuset ? group_obj->complete_cpuset : group_obj->cpuset)) {
             res_obj = hwloc__insert_object_by_cpuset(topology, NULL, group_obj,
                                                      (kind & HWLOC_DISTANCES_KIND_FROM_USER) ? "distances:fromuser:group" : "distances:group");
+            if ((topology->state & HWLOC_TOPOLOGY_STATE_IS_LOADED)
+                && res_obj == group_obj && res_obj->first_child) {
+              /* the Group was placed by cpuset, it may contain other NUMA nodes than those of its members
+               * (e.g. nodes attached deeper below an object it covers), rebuild its nodesets from its children.
+               * During discovery the core propagates the nodesets later.
+               */
+              if (res_obj->nodeset)
+                hwloc_bitmap_zero(res_obj->nodeset);
+              if (res_obj->complete_nodeset)
+                hwloc_bitmap_zero(res_obj->complete_nodeset);
+              hwloc_obj_add_children_sets(res_obj);
+            }
           } else {
             /* only CPU-less objects, nowhere to insert */
             hwloc_free_unlinked_object(group_obj);
